@@ -39,6 +39,7 @@ static pthread_cond_t cv = PTHREAD_COND_INITIALIZER;
 static int turn = -1;                 /* participant allowed to run; -1 = the controller; -2 = everybody (stress) */
 static volatile int free_mode;
 static volatile int round_winner = -1;
+static volatile int slow_arrived, slow_expected;   /* stress: line the callers up right before the election */
 static int K;
 static __thread int my_pid = -1;
 static volatile int elected = -1;     /* CAS winner of the current epoch = the main thread */
@@ -91,6 +92,15 @@ static void hook(int pt, const void * a, const void * b, long v) {
   /* `really' and `started' lie inside the initialiser's private section (no access of the state
      word in between): no decision point, the log line is enough */
   if (pt == MYTH_VP_INIT_REALLY || pt == MYTH_VP_INIT_STARTED || pt == MYTH_VP_FINI_STOPPED) return;
+  if (free_mode && pt == MYTH_VP_INIT_SLOW) {
+    /* spin barrier (at most 20 ms): all callers attempt the election within a few cycles */
+    struct timespec t0, t1; clock_gettime(CLOCK_MONOTONIC, &t0);
+    __sync_fetch_and_add(&slow_arrived, 1);
+    while (slow_arrived < slow_expected) {
+      clock_gettime(CLOCK_MONOTONIC, &t1);
+      if ((t1.tv_sec - t0.tv_sec) * 1000000000L + (t1.tv_nsec - t0.tv_nsec) > 20000000L) break;
+    }
+  }
   yield_token(pid);
 }
 
@@ -133,7 +143,13 @@ static void run(int p) {
   struct timespec ts; clock_gettime(CLOCK_REALTIME, &ts); ts.tv_sec += 20;
   pthread_mutex_lock(&mu);
   turn = p; pthread_cond_broadcast(&cv);
-  while (turn != -1) if (pthread_cond_timedwait(&cv, &mu, &ts)) { pthread_mutex_unlock(&mu); die("watchdog: a participant did not reach its next point"); }
+  while (turn != -1) if (pthread_cond_timedwait(&cv, &mu, &ts)) {
+    pthread_mutex_unlock(&mu);
+    if (p == -2) {   /* free-running round: nothing but the library can keep the callers from returning */
+      fflush(stdout); fprintf(stderr, "init_conc: free-running initialisers did not return within 20 s\n"); _exit(4);
+    }
+    die("watchdog: a participant did not reach its next point");
+  }
   pthread_mutex_unlock(&mu);
 }
 
@@ -189,6 +205,7 @@ int main(void) {
       round_winner = -1;
       pthread_mutex_lock(&mu);
       for (i = 0; i < K; i++) { tok = strtok_r(0, " \n", &save); if (!tok) die("stress: too few"); P[i].arg = atoi(tok); P[i].cmd = C_CALL; P[i].busy = 1; }
+      slow_arrived = 0; slow_expected = g_myth_init_state == 0 ? K : 0;
       free_mode = 1;
       pthread_mutex_unlock(&mu);
       run(-2);
